@@ -19,7 +19,10 @@ With ``case["sqlite"] = {"old": history|None, "new": history|None}`` a side is b
 With ``case["views"] = {"old": vspec|None, "new": vspec|None}`` a side is handed to ``diff()`` as
 ``dvc_data.index.view(<index built from the spec>, filter_fn)`` (a ``DataIndexView``), where
 ``vspec = {"keep": [key, ...], "root": bool}`` describes the prefix-closed filter "key is a non-empty
-ancestor of, equal to, or below one of the kept keys" and ``root`` is what the filter answers for ``()``.
+ancestor of, equal to, or below one of the kept keys" and ``root`` is what the filter answers for ``()``
+(``"all": true`` = the filter keeps every key).  Views may be combined with ``case["storage"]`` (views over
+indexes that hold unloaded directory objects); then every ``with_renames`` answer is additionally asked of
+freshly built indexes / views as their first diff call.
 
 The oracle is a flat dictionary diff (no descent, no listing) following DESIGN.md 4/C08 (a)-(f).
 """
@@ -73,6 +76,18 @@ RULE = (
     "table over the keys the filter keeps (a view always contains its root: with no entry at () the diff "
     "starts at the implicit root directory whatever filter_fn(()) says); self-diffs go through the view "
     "and through a view of an independently built copy. "
+    "A lazy-view arm combines the two: views (same filter family plus the filter that keeps every key; both "
+    "sides under one filter, one side only, different filters, or no view at all) over indexes of the storage "
+    "arm, in three shapes - the whole tree is ONE not yet loaded directory object at the root key () (on both "
+    "sides unless a mutation loads / replaces it), the only materialised entries are 1-3 unloaded directory "
+    "objects at non-root keys, or the storage arm's general shape - with files moved / copied between and "
+    "inside the directory objects (hashes from three values), with_renames on for two thirds of the cases; a "
+    "view may show a loadable directory object partly (kept key strictly below it). The reference is the "
+    "key-by-key table over the kept keys in their loaded form, the hash of a directory object being that of "
+    "its whole listing. In the storage and lazy-view arms every with_renames question is asked twice: of "
+    "freshly built indexes / views as their FIRST diff call (nothing loaded, a view over a lone root object "
+    "has len() == 0) and of the already walked ones; both answers are judged by the same clauses (e) "
+    "(signatures of the first carry ':first-call'). "
     "Oracle: flat key-by-key reference "
     "diff over the two key->entry dictionaries (under shallow, keys outside hashed sub-trees stay exact; "
     "a key strictly below a hashed entry may be seen or not seen on that side - any of those outcomes "
@@ -118,8 +133,20 @@ ASSUMPTIONS = [
     "it) - but an explicit entry at () is only generated under a filter that accepts () (iteritems never "
     "yields it, __getitem__ always returns it: unspecified); a kept directory entry's derived .dir hash is a "
     "function of the files the view shows below it (with one filter on both sides this is implied by the "
-    "hash being a function of all files below it); views are drawn over plain in-memory indexes only (not "
-    "in the storage / SQLite arms)",
+    "hash being a function of all files below it); views are not drawn over SQLite edit histories",
+    "lazy-view arm (views over indexes with unloaded directory objects): an entry at () - e.g. the whole tree "
+    "as one unloaded directory object - goes with a filter that accepts (); the hash of an unloaded directory "
+    "object names its whole listing whatever part of it the view shows, so a view shows a loadable directory "
+    "object partly only when both arguments are views under one and the same filter (equal hash => equal "
+    "listing => equal shown children; with different filters or a plain index on the other side 'equal .dir "
+    "hash => equal children' would not hold for what diff() is given); under with_unknown a view's filter "
+    "keeps the un-enumerable directory objects of its index: DataIndexView.ls(key) loads the underlying entry "
+    "at key before it consults the filter, so for a filtered-out un-enumerable directory whose key the other "
+    "side lists below, HEAD reports UNKNOWN for keys the view does not contain (without with_unknown: ADD / "
+    "DELETE as the table says) - reported as questionable, not asserted",
+    "first call vs later call: what diff() reports does not depend on which directory objects were loaded "
+    "before the call (loading is an implementation detail of ls()/info()); the first-call answer is judged "
+    "against the same reference and the same rename-free diff as the later one",
 ]
 
 ADD, MODIFY, RENAME, DELETE, UNCHANGED = "add", "modify", "rename", "delete", "unchanged"
